@@ -161,6 +161,32 @@ impl<'a> V<'a> {
             // equal or adjacent real parts for the selection methods
             rb = if case.n & 1 == 0 { ra } else { f64::from_bits(ra.to_bits() + 1) };
         }
+        // selection methods: one case in eight has a signed zero as the real part of the second operand
+        // (copysign must follow the sign BIT, min / max / clamp the float comparison), one in sixteen
+        // also as the real part of the first
+        let mut ra = ra;
+        if (42..=44).contains(&meth) && !case.near {
+            match (case.n as i64).rem_euclid(16) {
+                12 => rb = 0.0,
+                13 => rb = -0.0,
+                14 => {
+                    rb = -0.0;
+                    if meth != 44 {
+                        ra = 0.0;
+                    }
+                }
+                15 => {
+                    rb = 0.0;
+                    if meth != 44 {
+                        ra = -0.0;
+                    }
+                }
+                _ => {}
+            }
+            if rb == 0.0 {
+                st.class("selection method with a signed-zero operand");
+            }
+        }
         let fa = make_flat::<T::F>(&lay, ra, &case.a, &case.pres_a, &case.zero);
         let fb = make_flat::<T::F>(&lay, rb, &case.b, &case.pres_b, &[false]);
         let fc = make_flat::<T::F>(&lay, case.rc, &case.c, &case.pres_b, &[false]);
@@ -474,7 +500,7 @@ impl Property for C11 {
         if case.ty >= TYPES.len() || !TYPES[case.ty].field || case.a.is_empty() || case.b.is_empty() || case.c.is_empty() || case.pres_a.is_empty() || case.pres_b.is_empty() || case.zero.is_empty() || ![case.u, case.rb, case.rc].iter().all(|x| x.is_finite()) || case.rb.abs() > 1e3 || case.rc.abs() > 1e3 || !(0.0..1.0).contains(&case.u) {
             return Verdict::Trivial("malformed case");
         }
-        let dims = [case.dims.0 as usize, case.dims.1 as usize];
+        let dims = [case.dims.0 as usize % 7, case.dims.1 as usize % 7];
         dispatch_field(case.ty, &dims, V { case, st })
     }
     /// every constant on every field-compatible type (finite enumeration)
@@ -500,7 +526,7 @@ impl Property for C11 {
         }
     }
     fn rule() -> String {
-        "generated: (one of the 26 field-compatible instantiations Dual/DualVec/Dual2/Dual2Vec over f32/f64, static N=1..6 and dynamic; one of 48 method groups of ComplexField/RealField/SimdValue that do not panic by design; operands in the method's domain with arbitrary parts and presence patterns; for selection methods 30% equal or adjacent real parts). Oracles: (a) the 15 RealField constants and min/max_value have the float constant's bits and zero parts (also enumerated exhaustively on all types); (b) forwarders equal the generic dual operation bit for bit, composed methods (log with dual base, powf/powc with dual exponent, hypot, scale, unscale, modulus_squared, mul_add, signum, to_exp) equal the reference algebra within 32 u e, and every real part equals the same method on the plain float (6 ulp, conditioning-scaled for powers); (c) min, max, clamp, copysign, abs, modulus, norm1 return the operand the float rule selects with its own parts (or their negation) bit for bit; argument/to_polar are the float constants; (d) single-lane SimdValue: splat, extract, replace, select round-trip every presence pattern. Non-trivial: operands with distinct non-zero parts.".into()
+        "generated: (one of the 26 field-compatible instantiations Dual/DualVec/Dual2/Dual2Vec over f32/f64, static N=1..6 and dynamic; one of 48 method groups of ComplexField/RealField/SimdValue that do not panic by design; operands in the method's domain with arbitrary parts and presence patterns; for selection methods 30% equal or adjacent real parts and 1 in 4 of the rest a signed zero +0.0 / -0.0 as real part). Oracles: (a) the 15 RealField constants and min/max_value have the float constant's bits and zero parts (also enumerated exhaustively on all types); (b) forwarders equal the generic dual operation bit for bit, composed methods (log with dual base, powf/powc with dual exponent, hypot, scale, unscale, modulus_squared, mul_add, signum, to_exp) equal the reference algebra within 32 u e, and every real part equals the same method on the plain float (6 ulp, conditioning-scaled for powers); (c) min, max, clamp, copysign, abs, modulus, norm1 return the operand the float rule selects with its own parts (or their negation) bit for bit; argument/to_polar are the float constants; (d) single-lane SimdValue: splat, extract, replace, select round-trip every presence pattern. Non-trivial: operands with distinct non-zero parts.".into()
     }
     fn assumptions() -> Vec<String> {
         vec!["floor, ceil, round, trunc, fract panic by design and are excluded".into()]
